@@ -5,6 +5,7 @@ root, prop, letter = sys.argv[1:4]
 caught = " ".join(sys.argv[4:])
 src = os.path.join(root, prop)
 have = {d.split("-")[1] for d in os.listdir("/verif/seeded") if d.startswith(prop + "-")}
+have |= {k.split("-")[1] for k in json.load(open("/verif/seeded/REJECTED.json")) if k.startswith(prop + "-") and len(k.split("-")) == 2}
 new = next(l for l in string.ascii_uppercase if l not in have)
 dst = f"/verif/seeded/{prop}-{new}"
 os.makedirs(dst)
